@@ -37,7 +37,8 @@ META = {
                   "claimed only within the explored bounds.",
     "explanation": "real driver coroutines as concurrent tasks under a virtual clock; schedule, faults and "
                    "cancellation as symbolic choice variables; stage 2: LIA encoding of interleavings",
-    "bounds": ["2 callers (thorough 3)", "caller kinds: send(dt=0), send(dt!=0), run_sequence of <= 3 items",
+    "bounds": ["library sequences (Commissioning x2, SetGroups) through hid/luba/sci cancelled after 0..30 rounds with a waiting caller; cancelled-then-lost x2 on the real Tridonic driver",
+               "2 callers (thorough 3)", "caller kinds: send(dt=0), send(dt!=0), run_sequence of <= 3 items",
                "gateway call duration 0..2 rounds for the first 3 (thorough 5) gateway calls, start delay of the "
                "other callers 0..2 rounds (symbolic)",
                "one gateway fault, one cancellation (symbolic position), exceptions on/off",
